@@ -5,6 +5,7 @@ mod jfile;
 mod life;
 mod journal;
 mod mt;
+mod opts;
 mod store;
 mod txreplay;
 mod util;
@@ -150,6 +151,16 @@ fn main() {
             let out = life::run_life_mt(&a);
             println!("{}", serde_json::to_string(&json!({"result": out.to_json()})).unwrap());
             std::process::exit(0);
+        }
+        "opts" => {
+            let a = opts::OptsArgs {
+                file: PathBuf::from(arg(&args, "--file").expect("--file")),
+                out_dir: PathBuf::from(arg(&args, "--out").unwrap_or("/verif/work".into())),
+                seed: arg(&args, "--seed").and_then(|s| s.parse().ok()).unwrap_or(1),
+            };
+            std::fs::create_dir_all(&a.out_dir).ok();
+            let out = opts::run_opts(&a);
+            println!("{}", serde_json::to_string(&json!({"result": out.to_json()})).unwrap());
         }
         "life-replay" => {
             let a = life::LifeReplayArgs {
